@@ -134,6 +134,23 @@ static void observe(vh::W& w, World& W_) {
     w.kv("parent_ok", parent_ok).kv("shared", shared);
 }
 
+// Layers that own an option / tag list get one entry whose payload size is drawn from below, at and above the small-buffer
+// threshold of PDUOption (8 octets): copies and assignments between objects of one class then meet every combination of
+// "target holds a short / long option" x "source holds a short / long option" ("a copy ... is deep and equal to its source")
+static void decorate(PDU* p, vh::Rng& rng) {
+    static const size_t SZ[] = {0, 3, 8, 9, 12, 20};
+    size_t n = SZ[rng.below(6)]; std::vector<uint8_t> d; for (size_t i = 0; i < n; ++i) d.push_back((uint8_t)(0x41 + rng.below(26)));
+    if (rng.below(4) == 0) return;      // and sometimes none at all
+    // (dynamic_cast, not pdu_type(): a PDUCacher<IP> reports IP's type - known finding F8)
+    if (TCP* t = dynamic_cast<TCP*>(p)) t->add_option(TCP::option((TCP::OptionTypes)253, d.begin(), d.end()));
+    else if (IP* i = dynamic_cast<IP*>(p)) i->add_option(IP::option(IP::option_identifier((IP::OptionNumber)30, IP::MEASUREMENT, 1), d.begin(), d.end()));
+    else if (DHCP* h = dynamic_cast<DHCP*>(p)) h->add_option(DHCP::option((DHCP::OptionTypes)224, d.begin(), d.end()));
+    else if (DHCPv6* h6 = dynamic_cast<DHCPv6*>(p)) h6->add_option(DHCPv6::option(200, d.begin(), d.end()));
+    else if (ICMPv6* c6 = dynamic_cast<ICMPv6*>(p)) { std::vector<uint8_t> e(n <= 8 ? 6 : 14, 0x5a); c6->add_option(ICMPv6::option(200, e.begin(), e.end())); }
+    else if (PPPoE* pp = dynamic_cast<PPPoE*>(p)) pp->vendor_specific(PPPoE::vendor_spec_type(0x1234, d));
+    else if (Dot11ManagementFrame* m = dynamic_cast<Dot11ManagementFrame*>(p)) m->ssid(std::string(d.begin(), d.end()));
+}
+
 static void scenario(const vh::Json& sc, vh::Out& out, vh::Rng& rng, const vh::Args& args) {
     if (TABLE.empty()) build_table();
     long S = args.num("S", 3), P = args.num("P", 2);
@@ -148,7 +165,7 @@ static void scenario(const vh::Json& sc, vh::Out& out, vh::Rng& rng, const vh::A
         const vh::Json& o = sc[i]; const std::string& op = o["op"].str(); long a = o["a"].num() - 1, b = o["b"].num() - 1, c = o["c"].num() - 1;
         bool ser_ok = true; std::string thrown;
         try {
-            if (op == "new") { const Ops* k = Wd.cmap[o["b"].num()]; Wd.slots[a] = k->make(); Wd.ops[a] = k; tag_set(Wd.slots[a], o["c"].num()); }
+            if (op == "new") { const Ops* k = Wd.cmap[o["b"].num()]; Wd.slots[a] = k->make(); Wd.ops[a] = k; tag_set(Wd.slots[a], o["c"].num()); decorate(Wd.slots[a], rng); }
             else if (op == "clone") { Wd.slots[b] = Wd.slots[a]->clone(); Wd.ops[b] = Wd.ops[a]; ser_ok = ser(Wd.slots[a]) == ser(Wd.slots[b]); }
             else if (op == "copyctor") { Wd.slots[b] = Wd.ops[a]->copy(Wd.slots[a]); Wd.ops[b] = Wd.ops[a]; ser_ok = ser(Wd.slots[a]) == ser(Wd.slots[b]); }
             else if (op == "copyassign") { PDU* node = Wd.slots[a]; for (long k = 1; k < o["c"].num(); ++k) node = node->inner_pdu();
